@@ -274,6 +274,10 @@ def e_edit_property(d, r, lit):
     if x < 0.75:
         if "optional" in p and r.random() < 0.5:
             del p["optional"]
+        elif "optional" not in p and r.random() < 0.4:
+            # written out vs omitted: the same meaning to a plugin, yet another document (and the loader
+            # keeps the difference: False vs None), so the loads must not compare equal
+            p["optional"] = False
         else:
             p["optional"] = not p.get("optional", False)
         return "property:toggle_optional"
